@@ -33,13 +33,14 @@ type Pool struct {
 	Timeout time.Duration
 	Env     []string
 
-	mu       sync.Mutex
-	idle     chan *worker
-	all      []*worker
-	nextID   int64
-	Deaths   int64
-	Timeouts int64
-	Requests int64
+	mu          sync.Mutex
+	idle        chan *worker
+	all         []*worker
+	nextID      int64
+	Deaths      int64
+	SlowRetries int64 // cases that hit the watchdog in a batch and completed when re-run alone
+	Timeouts    int64
+	Requests    int64
 }
 
 func New(bin, dir string, n int) *Pool {
@@ -216,7 +217,17 @@ func (p *Pool) Batch(reqs []Req) []Resp {
 	out := make([]Resp, len(reqs))
 	for i := range reqs {
 		out[i] = p.DoT(reqs[i], 20*time.Second)
-		if out[i].Kind == "died" || out[i].Kind == "timeout" {
+		if out[i].Kind == "timeout" {
+			// the watchdog is wall clock: on a loaded machine a heavy case can simply be slow.
+			// Run it alone once more with a generous budget; only a case that does not come
+			// back within that either is reported as a timeout (logical hangs are caught by
+			// the tick budgets long before)
+			again := p.DoT(reqs[i], 5*time.Minute)
+			if again.Kind != "timeout" {
+				atomic.AddInt64(&p.SlowRetries, 1)
+				out[i] = again
+			}
+		} else if out[i].Kind == "died" {
 			// confirm alone once more
 			again := p.DoT(reqs[i], 30*time.Second)
 			if again.Kind != out[i].Kind {
